@@ -154,3 +154,81 @@ where
         folder.consume_iter(iter)
     }
 }
+
+/// Verification hook (only with `--cfg specs_verif`): opens a `ParJoin`,
+/// builds the producer `par_join()` hands to rayon and applies a scripted
+/// tree of `split()` decisions to it (`true` = split this producer, `false`
+/// = fold it), depth first. Every item of every leaf is passed to `sink`
+/// together with the number of its leaf. This lets a harness enumerate the
+/// ways a work-stealing scheduler can split the index space instead of
+/// hoping that a thread pool happens to produce them.
+#[cfg(specs_verif)]
+#[doc(hidden)]
+pub fn verif_split_fold<J, S>(j: J, decisions: &mut dyn Iterator<Item = bool>, mut sink: S)
+where
+    J: ParJoin + Send,
+    J::Mask: Send + Sync,
+    J::Type: Send,
+    J::Value: Send + Sync,
+    S: FnMut(usize, J::Type),
+{
+    struct VecFolder<T>(Vec<T>);
+
+    impl<T> Folder<T> for VecFolder<T> {
+        type Result = Vec<T>;
+
+        fn consume(mut self, item: T) -> Self {
+            self.0.push(item);
+            self
+        }
+
+        fn complete(self) -> Vec<T> {
+            self.0
+        }
+
+        fn full(&self) -> bool {
+            false
+        }
+    }
+
+    fn walk<'a, J, S>(
+        producer: JoinProducer<'a, J>,
+        decisions: &mut dyn Iterator<Item = bool>,
+        leaf: &mut usize,
+        sink: &mut S,
+    ) where
+        J: ParJoin + Send,
+        J::Mask: Send + Sync + 'a,
+        J::Type: Send,
+        J::Value: Send + Sync + 'a,
+        S: FnMut(usize, J::Type),
+    {
+        if decisions.next().unwrap_or(false) {
+            let (first, second) = producer.split();
+            walk(first, decisions, leaf, sink);
+            if let Some(second) = second {
+                walk(second, decisions, leaf, sink);
+            }
+        } else {
+            let items = producer.fold_with(VecFolder(Vec::new())).complete();
+            let l = *leaf;
+            *leaf += 1;
+            for item in items {
+                sink(l, item);
+            }
+        }
+    }
+
+    // SAFETY: same contract as `JoinParIter::drive_unindexed`: the mask is
+    // only used to drive `get`, and every index is requested at most once
+    // because the producers partition the mask.
+    let (keys, values) = unsafe { j.open() };
+    let producer = BitProducer((&keys).iter(), 3);
+    let mut leaf = 0;
+    walk(
+        JoinProducer::<J>::new(producer, &values),
+        decisions,
+        &mut leaf,
+        &mut sink,
+    );
+}
